@@ -64,8 +64,9 @@ struct MNode {
   virtual void start() = 0;
   virtual void child_done(int, Result) {}
   void finish(Result r);
+  void begin();   // start(), unless this start is the candidate fault site
   MNode* make_child(int idx, int slot_);
-  void start_child(MNode* c, MSource* t) { c->tok = t; c->sched_ctx = sched_ctx; c->tag = tag; c->alloc = alloc; c->started = true; c->start(); }
+  void start_child(MNode* c, MSource* t) { c->tok = t; c->sched_ctx = sched_ctx; c->tag = tag; c->alloc = alloc; c->started = true; c->begin(); }
 };
 
 struct PendingKey { int leaf, inst, kind; bool operator<(const PendingKey& o) const { return std::tie(leaf, inst, kind) < std::tie(o.leaf, o.inst, o.kind); } bool operator==(const PendingKey& o) const { return leaf == o.leaf && inst == o.inst && kind == o.kind; } };
@@ -93,6 +94,12 @@ struct Model {
   std::map<int, MSource*> bound_ss;
   std::vector<std::string> log;
   std::vector<std::unique_ptr<MNode>> graveyard;   // replaced nodes may still be on the call stack
+  // candidate site of an anonymous injected fault (a value copy/move, connect() or allocation that throws somewhere inside the
+  // implementation): "the occ-th start of node nid fails" (mode 1: nothing below it starts, the node completes with the injected
+  // error) or "the occ-th value completion of node nid is replaced by the injected error" (mode 0): what the statement
+  // "the failure is reported through set_error" means for the enclosing algorithm
+  int cand_nid = -1, cand_mode = 0, cand_occ = 0; bool cand_used = false;
+  std::map<int, int> value_finishes, begins;
 
   Model(const ShapeDesc& s, const std::vector<sr::LeafSpec>& sp) : sd(s), spec(sp) {}
   std::unique_ptr<MNode> build(int idx);
@@ -108,7 +115,7 @@ struct Model {
     root->tok = root_stoppable ? &root_src : nullptr;
     root->sched_ctx = 7; root->tag = 424242;
     root->started = true;
-    root->start();
+    root->begin();
   }
   void request_stop() { root_src.request_stop(); }
   bool fire(int leaf, int inst, int kind, int ctx) {
@@ -125,7 +132,28 @@ struct Model {
   std::vector<PendingKey> pending() const { std::vector<PendingKey> v; for (auto& kv : pend) v.push_back(kv.first); return v; }
 };
 
+inline void MNode::begin() {
+  if (M->cand_nid == d->nid && M->cand_mode == 1 && M->begins[d->nid]++ == M->cand_occ) {
+    M->cand_used = true;
+    Result e; e.chan = ERROR; e.err = 1000000;
+    return finish(e);
+  }
+  // mode 2: the enclosing algorithm catches the failure of (re)connecting / starting this child and reports it to its own
+  // receiver directly, without treating it as a completion of the child (retry_when: a failed re-connect is not retried)
+  if (M->cand_nid == d->nid && M->cand_mode == 2 && M->begins[d->nid]++ == M->cand_occ) {
+    M->cand_used = true;
+    Result e; e.chan = ERROR; e.err = 1000000;
+    if (parent) { parent->completed = true; if (parent->parent) return parent->parent->child_done(parent->slot, e); return M->root_done(e); }
+    return finish(e);
+  }
+  start();
+}
+
 inline void MNode::finish(Result r) {
+  if (M->cand_nid == d->nid && M->cand_mode == 0 && r.chan == VALUE && M->value_finishes[d->nid]++ == M->cand_occ) {
+    M->cand_used = true;
+    r = Result(); r.chan = ERROR; r.err = 1000000;
+  }
   completed = true;
   if (parent) parent->child_done(slot, r); else M->root_done(r);
 }
@@ -230,16 +258,16 @@ struct MMap : MNode {
     finish(r);  // materialize|dematerialize, any_sender_of, allocate, with_query_value, with_allocator, unstoppable: transparent
   }
 };
-struct MWithAlloc : MMap { void start() override { MNode* c = kids[0].get(); c->tok = tok; c->sched_ctx = sched_ctx; c->tag = tag; c->alloc = d->a; c->started = true; c->start(); } };
+struct MWithAlloc : MMap { void start() override { MNode* c = kids[0].get(); c->tok = tok; c->sched_ctx = sched_ctx; c->tag = tag; c->alloc = d->a; c->started = true; c->begin(); } };
 // allocate(): "obtains its memory from exactly the allocator visible at that point" (C12): note which allocator a started allocate() saw
 struct MAllocate : MMap { void start() override { M->allocate_started[alloc]++; MMap::start(); } };
 // nest(sender, scope) in a scope that has already been joined: "work nested after the scope is closed is never started and completes with done" (C08)
 struct MNestClosed : MNode { void start() override { Result r; r.chan = DONE; finish(r); } };
 struct MUnstoppable : MMap { MSource* child_tok() override { return nullptr; } };  // unstoppable(): child sees unstoppable_token
-struct MWithQuery : MMap { void start() override { MNode* c = kids[0].get(); c->tok = tok; c->sched_ctx = sched_ctx; c->tag = d->nid; c->alloc = alloc; c->started = true; c->start(); } };
+struct MWithQuery : MMap { void start() override { MNode* c = kids[0].get(); c->tok = tok; c->sched_ctx = sched_ctx; c->tag = d->nid; c->alloc = alloc; c->started = true; c->begin(); } };
 // any_sender_of<Ts...> declared without extra queries forwards only the stop token (adapted); scheduler, allocator and custom
 // queries fall back to their defaults (type-erased wrappers forward exactly the set of queries they were declared with)
-struct MAny : MMap { void start() override { MNode* c = kids[0].get(); c->tok = tok; c->sched_ctx = -1; c->tag = -1; c->alloc = -1; c->started = true; c->start(); } };
+struct MAny : MMap { void start() override { MNode* c = kids[0].get(); c->tok = tok; c->sched_ctx = -1; c->tag = -1; c->alloc = -1; c->started = true; c->begin(); } };
 
 // ------------------------------------------------------------------ let_value / let_error / let_done / defer / let_value_with
 // let_value: predecessor value -> func(value&) -> successor result; done/error pass through without invoking func.
@@ -288,7 +316,7 @@ struct MOn : MNode {
   void child_done(int s, Result r) override {
     if (s == 1) return finish(r);
     if (r.chan != VALUE) return finish(r);
-    MNode* c = kids[1].get(); c->tok = tok; c->sched_ctx = d->a; c->tag = tag; c->alloc = alloc; c->started = true; c->start();
+    MNode* c = kids[1].get(); c->tok = tok; c->sched_ctx = d->a; c->tag = tag; c->alloc = alloc; c->started = true; c->begin();
   }
 };
 
